@@ -26,8 +26,6 @@ package rep
 //@ func NewProtocol
 //@   private
 //@
-//@ func (*context).close
-//@   holds c.s.Mutex
 //@ func (*pipe).receiver
 //@   before call:Unlock#1 assert held(s.Mutex) && ttl == s.ttl
 //@   ghost body0 = result.Body at call:RecvMsg#1
